@@ -192,7 +192,8 @@ Record invA (files : list file) (c : config) : Prop := {
   a_joined : forall i, i < joined (cN c) (prod c) -> nth_error (ws c) i = Some WStopped;
   a_ret : forall b, prod c = PReturned b -> b = negb (isnil (failedl c));
   a_nput : 1 <= cN c ->
-           nput c + length (p_files (prod c)) = length files + sent_put (cN c) (prod c)
+           nput c + length (p_files (prod c)) = length files + sent_put (cN c) (prod c);
+  a_skip : 1 <= cN c -> skipped c = []
 }.
 
 Lemma nth_error_repeat : forall A (x : A) n i w, nth_error (repeat x n) i = Some w -> w = x.
@@ -241,7 +242,7 @@ Ltac tA :=
 
 Lemma invA_pstep : forall files c, invA files c -> invA files (pstep c).
 Proof.
-  intros files c I. destruct I as [Il I0 I1 Iw Iq Iu Is Iso Ia Ij Ir In].
+  intros files c I. destruct I as [Il I0 I1 Iw Iq Iu Is Iso Ia Ij Ir In Isk].
   inv_c c. unfold pstep; simpl.
   destruct p as [[|f todo]|f todo|f todo|ts todo|[|k]|[|k]| |b]; simpl in *.
   - (* POpenSrc [] *)
@@ -282,7 +283,7 @@ Proof.
   intros files c i I.
   destruct (final c) eqn:F.
   { change (wstep c i) with (step c (S i)). rewrite (final_stuck files); auto. }
-  destruct I as [Il I0 I1 Iw Iq Iu Is Iso Ia Ij Ir In].
+  destruct I as [Il I0 I1 Iw Iq Iu Is Iso Ia Ij Ir In Isk].
   inv_c c. unfold wstep; simpl.
   destruct (nth_error wl i) as [w|] eqn:E; [|constructor; simpl; auto].
   assert (NS : forall j, j < joined N p -> j <> i \/ w = WStopped).
@@ -390,9 +391,10 @@ Proof. decide equality; [decide equality | apply file_dec]. Qed.
 Global Opaque cnt one.
 
 Notation cf := (cnt file file_dec).
-Notation ch := (cnt handle handle_dec).
+Notation ch := (cnt (file * side) handle_dec).
 
 Ltac cn :=
+  unfold handle in *;
   repeat (rewrite ?flat_map_app, ?cnt_app, ?cnt_cons, ?cnt_nil in *; simpl in * ).
 
 (* ------------------------------------------------------------------ transfers *)
@@ -481,4 +483,522 @@ Proof.
   intros N files; constructor; simpl; intros; auto; try congruence.
   - rewrite flat_repeat_nil; auto; cn; lia.
   - induction N; simpl; constructor; simpl; auto.
+Qed.
+
+Ltac tB :=
+  solve [ auto | lia | discriminate | congruence
+        | constructor; auto
+        | apply Forall_upd; simpl; auto
+        | match goal with
+          | H : forall x, cf _ x = _ |- cf _ ?y = _ => specialize (H y); cn; lia
+          end ].
+
+Lemma invB_pstep : forall files c, invB files c -> final c = false -> invB files (pstep c).
+Proof.
+  intros files c I F. destruct I as [If Iw Ip Ic Ifl Is0 Is].
+  inv_c c. specialize (Is0 F). subst sk. unfold pstep; simpl.
+  destruct p as [[|f todo]|f todo|f todo|ts todo|[|k]|[|k]| |b]; simpl in *.
+  - destruct (N =? 0); constructor; simpl; intros; tB.
+  - constructor; simpl; intros; tB.
+  - destruct (N =? 0); constructor; simpl; intros; try tB.
+    + unfold start_task; rewrite t_file_after; tB.
+    + apply t_ok_start.
+  - unfold room; simpl. destruct (length q <? N); constructor; simpl; intros; tB.
+  - destruct (tstep ts) as [[t'|[f [|]]] hs] eqn:T.
+    + destruct (tstep_inl _ _ _ T Ip) as [Tf Tk].
+      constructor; simpl; intros; try tB; rewrite Tf; tB.
+    + destruct (tstep_inr _ _ _ _ T Ip) as [Tf Tk]. subst f.
+      constructor; simpl; intros; tB.
+    + destruct (tstep_inr _ _ _ _ T Ip) as [Tf Tk]. subst f.
+      constructor; simpl; intros; tB.
+  - constructor; simpl; intros; tB.
+  - unfold room; simpl. destruct (length q <? N); constructor; simpl; intros; tB.
+  - constructor; simpl; intros; tB.
+  - destruct (nth_error wl (N - S k)) as [[| | | |]|]; constructor; simpl; intros; tB.
+  - destruct (u =? 0); constructor; simpl; intros; tB.
+  - discriminate.
+Qed.
+
+Lemma invB_wstep : forall files c i, invB files c -> invB files (wstep c i).
+Proof.
+  intros files c i I. destruct I as [If Iw Ip Ic Ifl Is0 Is].
+  inv_c c. unfold wstep; simpl.
+  destruct (nth_error wl i) as [w|] eqn:E; [|constructor; simpl; auto].
+  pose proof (Forall_nth_error _ _ _ _ _ Iw E) as Kw.
+  destruct w as [|ts| | |]; simpl in Kw.
+  - destruct q as [|[f|] q']; simpl in *.
+    + constructor; simpl; auto.
+    + constructor; simpl; intros; try tB.
+      * pose proof (cnt_flat_upd _ file_dec _ w_files wl i _ (WRun (start_task f)) x E) as U.
+        unfold start_task in *; simpl in U; rewrite t_file_after in U.
+        specialize (If x); cn; lia.
+      * apply Forall_upd; auto. apply t_ok_start.
+    + constructor; simpl; intros; try tB.
+      pose proof (cnt_flat_upd _ file_dec _ w_files wl i _ WSentinel x E) as U.
+      simpl in U. specialize (If x); cn; lia.
+  - destruct (tstep ts) as [[t'|[f failed]] hs] eqn:T.
+    + destruct (tstep_inl _ _ _ T Kw) as [Tf Tk].
+      constructor; simpl; intros; try tB.
+      pose proof (cnt_flat_upd _ file_dec _ w_files wl i _ (WRun t') x E) as U.
+      simpl in U. rewrite Tf in U. specialize (If x); cn; lia.
+    + destruct (tstep_inr _ _ _ _ T Kw) as [Tf Tk]. subst f.
+      unfold do_verdict; destruct failed; simpl;
+        (constructor; simpl; intros; try tB;
+         pose proof (cnt_flat_upd _ file_dec _ w_files wl i _ WTaskDone x E) as U;
+         simpl in U; specialize (If x); cn; lia).
+  - constructor; simpl; intros; try tB.
+    pose proof (cnt_flat_upd _ file_dec _ w_files wl i _ WIdle x E) as U.
+    simpl in U. specialize (If x); cn; lia.
+  - constructor; simpl; intros; try tB.
+    pose proof (cnt_flat_upd _ file_dec _ w_files wl i _ WStopped x E) as U.
+    simpl in U. specialize (If x); cn; lia.
+  - constructor; simpl; auto.
+Qed.
+
+Lemma invB_step : forall files c t, invA files c -> invB files c -> invB files (step c t).
+Proof.
+  intros files c t IA IB. destruct (final c) eqn:F.
+  - rewrite (final_stuck files); auto.
+  - destruct t as [|i]; simpl; [apply invB_pstep|apply invB_wstep]; auto.
+Qed.
+
+(* ------------------------------------------------------------------ invariant C: handles *)
+
+Definition i_held (it : item) : list handle :=
+  match it with Task f => [(f, Src); (f, Dst)] | Sentinel => [] end.
+Definition w_held (w : wstate) : list handle := match w with WRun t => t_held t | _ => [] end.
+Definition p_held (p : pstate) : list handle :=
+  match p with
+  | POpenDst f _ => [(f, Src)]
+  | PPut f _ => [(f, Src); (f, Dst)]
+  | PInline t _ => t_held t
+  | _ => []
+  end.
+
+(* every opened file object is closed or still held by exactly one owner *)
+Definition invC (c : config) : Prop :=
+  forall x, ch (opened c) x = ch (p_held (prod c)) x + ch (flat_map i_held (queue c)) x
+                              + ch (flat_map w_held (ws c)) x + ch (closedh c) x.
+
+Lemma invC_init : forall N files, invC (init N files).
+Proof. intros N files x; simpl. rewrite flat_repeat_nil; auto. Qed.
+
+Ltac tC :=
+  match goal with
+  | H : forall x, ch _ x = _ |- ch _ ?y = _ => specialize (H y); cn; lia
+  end.
+
+Lemma invC_pstep : forall c, invC c -> invC (pstep c).
+Proof.
+  intros c I. unfold invC in *. inv_c c. unfold pstep; simpl.
+  destruct p as [[|f todo]|f todo|f todo|ts todo|[|k]|[|k]| |b]; simpl in *.
+  - destruct (N =? 0); simpl; intros; tC.
+  - simpl; intros; tC.
+  - destruct (N =? 0); simpl; intros; try tC.
+    unfold start_task; rewrite t_held_after; tC.
+  - unfold room; simpl. destruct (length q <? N); simpl; intros; tC.
+  - destruct (tstep ts) as [[t'|[f [|]]] hs] eqn:T; simpl; intros.
+    + pose proof (tstep_held_inl _ _ _ T x). tC.
+    + pose proof (tstep_held_inr _ _ _ T x). tC.
+    + pose proof (tstep_held_inr _ _ _ T x). tC.
+  - simpl; intros; tC.
+  - unfold room; simpl. destruct (length q <? N); simpl; intros; tC.
+  - simpl; intros; tC.
+  - destruct (nth_error wl (N - S k)) as [[| | | |]|]; simpl; intros; tC.
+  - destruct (u =? 0); simpl; intros; tC.
+  - auto.
+Qed.
+
+Lemma invC_wstep : forall c i, invC c -> invC (wstep c i).
+Proof.
+  intros c i I. unfold invC in *. inv_c c. unfold wstep; simpl.
+  destruct (nth_error wl i) as [w|] eqn:E; [|auto].
+  destruct w as [|ts| | |].
+  - destruct q as [|[f|] q']; simpl in *; intros; auto.
+    + pose proof (cnt_flat_upd _ handle_dec _ w_held wl i _ (WRun (start_task f)) x E) as U.
+      unfold start_task in *; simpl in U; rewrite t_held_after in U. tC.
+    + pose proof (cnt_flat_upd _ handle_dec _ w_held wl i _ WSentinel x E) as U.
+      simpl in U. tC.
+  - destruct (tstep ts) as [[t'|[f failed]] hs] eqn:T.
+    + simpl; intros.
+      pose proof (cnt_flat_upd _ handle_dec _ w_held wl i _ (WRun t') x E) as U.
+      pose proof (tstep_held_inl _ _ _ T x). simpl in U. tC.
+    + unfold do_verdict; destruct failed; simpl; intros;
+        pose proof (cnt_flat_upd _ handle_dec _ w_held wl i _ WTaskDone x E) as U;
+        pose proof (tstep_held_inr _ _ _ T x); simpl in U; tC.
+  - simpl; intros.
+    pose proof (cnt_flat_upd _ handle_dec _ w_held wl i _ WIdle x E) as U. simpl in U. tC.
+  - simpl; intros.
+    pose proof (cnt_flat_upd _ handle_dec _ w_held wl i _ WStopped x E) as U. simpl in U. tC.
+  - auto.
+Qed.
+
+Lemma invC_step : forall c t, invC c -> invC (step c t).
+Proof. intros c [|i] I; simpl; [apply invC_pstep|apply invC_wstep]; auto. Qed.
+
+(* ------------------------------------------------------------------ all invariants *)
+
+Definition inv (files : list file) (c : config) : Prop :=
+  invA files c /\ invB files c /\ invC c.
+
+Lemma inv_init : forall N files, inv files (init N files).
+Proof. intros; split; [|split]; [apply invA_init|apply invB_init|apply invC_init]. Qed.
+
+Lemma inv_step : forall files c t, inv files c -> inv files (step c t).
+Proof.
+  intros files c t (IA & IB & IC). split; [|split];
+    [apply invA_step|apply invB_step|apply invC_step]; auto.
+Qed.
+
+Lemma inv_run : forall files sched c, inv files c -> inv files (run sched c).
+Proof.
+  intros files sched; induction sched; simpl; intros c I; auto.
+  apply IHsched, inv_step; auto.
+Qed.
+
+Lemma inv_reach : forall N files sched, inv files (run sched (init N files)).
+Proof. intros; apply inv_run, inv_init. Qed.
+
+Lemma cN_step : forall c t, cN (step c t) = cN c.
+Proof.
+  intros c [|i]; simpl.
+  - unfold pstep. destruct (prod c) as [[|f todo]|f todo|f todo|ts todo|[|k]|[|k]| |b];
+      simpl; auto.
+    + destruct (cN c =? 0); auto.
+    + destruct (cN c =? 0); auto.
+    + destruct (room c); auto.
+    + destruct (tstep ts) as [[t'|[f [|]]] hs]; auto.
+    + destruct (room c); auto.
+    + destruct (nth_error (ws c) (cN c - S k)) as [[| | | |]|]; auto.
+    + destruct (unfinished c =? 0); auto.
+  - unfold wstep. destruct (nth_error (ws c) i) as [[|ts| | |]|]; auto.
+    + destruct (queue c) as [|[f|] q]; auto.
+    + destruct (tstep ts) as [[t'|[f [|]]] hs]; auto.
+Qed.
+
+Lemma cN_run : forall sched c, cN (run sched c) = cN c.
+Proof.
+  induction sched; simpl; intros; auto. rewrite IHsched, cN_step; auto.
+Qed.
+
+(* ------------------------------------------------------------------ enabledness is honest *)
+
+(* a pick that is not enabled is skipped *)
+Theorem disabled_skip : forall c t, enabled c t = false -> step c t = c.
+Proof.
+  intros c [|i]; simpl.
+  - unfold p_enabled, pstep.
+    destruct (prod c) as [[|f todo]|f todo|f todo|ts todo|[|k]|[|k]| |b]; try discriminate;
+      auto.
+    + intros H; rewrite H; auto.
+    + intros H; rewrite H; auto.
+    + destruct (nth_error (ws c) (cN c - S k)) as [[| | | |]|]; auto; discriminate.
+    + intros H; rewrite H; auto.
+  - unfold w_enabled, wstep. destruct (nth_error (ws c) i) as [[|ts| | |]|]; auto;
+      try discriminate.
+    destruct (queue c); auto; discriminate.
+Qed.
+
+(* ------------------------------------------------------------------ T1 *)
+
+Theorem copier_counts : forall N files sched,
+  let c := run sched (init N files) in
+  cN c = N /\
+  length (ws c) = N /\
+  length (queue c) <= N /\
+  unfinished c = length (queue c) + sumf busy (ws c) /\
+  sent_put N (prod c) = sumf i_sent (queue c) + sumf gotsent (ws c) /\
+  (1 <= N ->
+   nput c + length (p_files (prod c)) = length files + sent_put N (prod c)).
+Proof.
+  intros N files sched c.
+  destruct (inv_reach N files sched) as (IA & _ & _). fold c in IA.
+  assert (E : cN c = N) by (unfold c; rewrite cN_run; auto).
+  destruct IA as [Il I0 I1 Iw Iq Iu Is Iso Ia Ij Ir In Isk]. rewrite E in *.
+  repeat split; auto.
+Qed.
+
+(* with workers, a completed call has put exactly one item per file plus one sentinel per
+   worker *)
+Corollary copier_items_put : forall N files sched,
+  let c := run sched (init N files) in
+  1 <= N -> final c = true -> nput c = length files + N.
+Proof.
+  intros N files sched c HN F.
+  destruct (copier_counts N files sched) as (_ & _ & _ & _ & _ & H). fold c in H.
+  specialize (H HN). unfold final in F. destruct (prod c); try discriminate.
+  simpl in H. lia.
+Qed.
+
+(* ------------------------------------------------------------------ T2 *)
+
+Lemma all_stopped_forallb : forall l,
+  (forall i, i < length l -> nth_error l i = Some WStopped) -> forallb is_stopped l = true.
+Proof.
+  induction l as [|w l IH]; simpl; intros H; auto.
+  pose proof (H 0 ltac:(lia)) as H0. simpl in H0. inversion H0; subst. simpl.
+  apply IH. intros i Hi. apply (H (S i)). lia.
+Qed.
+
+Lemma stopped_flat_nil : forall B (g : wstate -> list B) l,
+  g WStopped = [] -> forallb is_stopped l = true -> flat_map g l = [].
+Proof.
+  intros B g l Hg; induction l as [|w l IH]; simpl; intros H; auto.
+  apply andb_true_iff in H. destruct H as [Hw Hl]. destruct w; try discriminate.
+  rewrite Hg, IH; auto.
+Qed.
+
+Lemma stopped_sum : forall (g : wstate -> nat) l,
+  forallb is_stopped l = true -> sumf g l = length l * g WStopped.
+Proof.
+  intros g l; induction l as [|w l IH]; simpl; intros H; auto.
+  apply andb_true_iff in H. destruct H as [Hw Hl]. destruct w; try discriminate.
+  rewrite sumf_cons, IH; auto.
+Qed.
+
+Lemma final_shape : forall files c, invA files c -> final c = true ->
+  workers_done c = true /\ queue c = [].
+Proof.
+  intros files c IA F. destruct IA as [Il I0 I1 Iw Iq Iu Is Iso Ia Ij Ir In Isk].
+  unfold final in F. destruct (prod c) eqn:P; try discriminate. simpl in *.
+  assert (W : forallb is_stopped (ws c) = true).
+  { apply all_stopped_forallb. intros i Hi. apply Ij. lia. }
+  split; auto.
+  destruct (cN c) as [|n] eqn:EN.
+  - destruct (queue c); auto. simpl in Iq; lia.
+  - rewrite (stopped_sum gotsent) in Is, Ia by auto. simpl in Is, Ia.
+    rewrite Il, Nat.mul_1_r in Is, Ia.
+    specialize (Ia ltac:(lia)). apply all_sent_count in Ia.
+    destruct (queue c); auto. simpl in Ia. rewrite Ia in Is. simpl in Is. lia.
+Qed.
+
+Lemma list_bool_eqb_eq : forall a b, list_bool_eqb a b = true -> a = b.
+Proof.
+  induction a as [|x a IH]; destruct b as [|y b]; simpl; intros H; auto; try discriminate.
+  apply andb_true_iff in H. destruct H as [H1 H2]. apply eqb_prop in H1. f_equal; auto.
+Qed.
+
+Lemma list_bool_eqb_refl : forall a, list_bool_eqb a a = true.
+Proof. induction a; simpl; auto. rewrite eqb_reflx; auto. Qed.
+
+Lemma handle_eqb_eq : forall a b : handle, handle_eqb a b = true -> a = b.
+Proof.
+  intros [[n1 d1 s1 c1] sa] [[n2 d2 s2 c2] sb]; unfold handle_eqb, file_eqb; simpl; intros H.
+  repeat (apply andb_true_iff in H; destruct H as [H ?]).
+  apply Nat.eqb_eq in H. apply list_bool_eqb_eq in H3. apply eqb_prop in H2, H1.
+  subst. destruct sa, sb; try discriminate; auto.
+Qed.
+
+Lemma handle_eqb_refl : forall a : handle, handle_eqb a a = true.
+Proof.
+  intros [[n d s c] sa]; unfold handle_eqb, file_eqb; simpl.
+  rewrite Nat.eqb_refl, list_bool_eqb_refl, !eqb_reflx. destruct sa; auto.
+Qed.
+
+Lemma remove1_spec : forall h l, In h l ->
+  exists l', remove1 h l = Some l' /\ Permutation l (h :: l').
+Proof.
+  intros h l; induction l as [|x t IH]; simpl; intros H; [tauto|].
+  destruct (handle_eqb h x) eqn:E.
+  - apply handle_eqb_eq in E; subst. exists t; auto.
+  - destruct H as [H|H]; [subst; rewrite handle_eqb_refl in E; discriminate|].
+    destruct (IH H) as (t' & R & P). rewrite R. exists (x :: t'); split; auto.
+    eapply perm_trans; [apply perm_skip; exact P|apply perm_swap].
+Qed.
+
+Lemma same_handles_perm : forall a b, Permutation a b -> same_handles a b = true.
+Proof.
+  induction a as [|h t IH]; simpl; intros b P.
+  - apply Permutation_nil in P; subst; auto.
+  - assert (In h b) by (eapply Permutation_in; eauto; simpl; auto).
+    destruct (remove1_spec h b H) as (b' & R & Q). rewrite R. apply IH.
+    apply Permutation_cons_inv with h. eapply perm_trans; eauto.
+Qed.
+
+Definition nofault (files : list file) : Prop := forall f, In f files -> faulty f = false.
+
+Theorem copier_exit : forall N files sched,
+  let c := run sched (init N files) in
+  final c = true ->
+  (* it returns only after all workers have finished, the queue is drained *)
+  workers_done c = true /\ queue c = [] /\
+  (* every file object opened has been closed, and nothing else *)
+  Permutation (opened c) (closedh c) /\ all_closed c = true /\
+  (* it raises exactly when some transfer failed *)
+  (raised c = true <-> exists f, In f files /\ faulty f = true) /\
+  (* every file is accounted for; copied files are exactly fault free ones *)
+  Permutation files (copied c ++ failedl c ++ skipped c) /\
+  Forall (fun f => faulty f = false) (copied c) /\
+  Forall (fun f => faulty f = true) (failedl c) /\
+  (1 <= N -> skipped c = []) /\
+  (* no fault: everything is copied, whatever N and the schedule *)
+  (nofault files -> raised c = false /\ Permutation (copied c) files).
+Proof.
+  intros N files sched c F.
+  destruct (inv_reach N files sched) as (IA & IB & IC). fold c in IA, IB, IC.
+  destruct (final_shape files c IA F) as [W Q].
+  assert (EN : cN c = N) by (unfold c; rewrite cN_run; auto).
+  assert (PO : Permutation (opened c) (closedh c)).
+  { apply (cnt_perm _ handle_dec). intros x. specialize (IC x).
+    unfold workers_done in W.
+    rewrite Q, (stopped_flat_nil _ w_held) in IC by auto.
+    unfold final in F. destruct (prod c); try discriminate. simpl in IC. cn. lia. }
+  assert (PF : Permutation files (copied c ++ failedl c ++ skipped c)).
+  { apply (cnt_perm _ file_dec). intros x. pose proof (b_files _ _ IB x) as H.
+    unfold workers_done in W.
+    rewrite Q, (stopped_flat_nil _ w_files) in H by auto.
+    unfold final in F. destruct (prod c); try discriminate. simpl in H. cn. lia. }
+  pose proof (b_cop _ _ IB) as HC. pose proof (b_fail _ _ IB) as HF.
+  pose proof (b_skip _ _ IB) as HS.
+  assert (R : raised c = negb (isnil (failedl c))).
+  { unfold raised. unfold final in F. destruct (prod c) eqn:P; try discriminate.
+    apply (a_ret _ _ IA); auto. }
+  assert (RI : raised c = true <-> exists f, In f files /\ faulty f = true).
+  { rewrite R. split.
+    - destruct (failedl c) as [|f l] eqn:E; simpl; intros H; try discriminate.
+      exists f; split.
+      + eapply Permutation_in; [apply Permutation_sym; exact PF|].
+        apply in_or_app; right; apply in_or_app; left; simpl; auto.
+      + inversion HF; auto.
+    - intros (f & Hin & Hf).
+      apply (Permutation_in _ PF) in Hin. apply in_app_or in Hin. destruct Hin as [Hin|Hin].
+      + rewrite Forall_forall in HC. rewrite (HC _ Hin) in Hf; discriminate.
+      + apply in_app_or in Hin. destruct Hin as [Hin|Hin].
+        * destruct (failedl c); simpl in *; auto; tauto.
+        * destruct (failedl c); simpl; auto. exfalso. apply HS; auto.
+          intros E; rewrite E in Hin; simpl in Hin; auto. }
+  split; [exact W|]. split; [exact Q|]. split; [exact PO|].
+  split; [apply same_handles_perm; exact PO|]. split; [exact RI|]. split; [exact PF|].
+  split; [exact HC|]. split; [exact HF|].
+  split; [intros HN; apply (a_skip _ _ IA); lia|].
+  intros NF. split.
+  - destruct (raised c) eqn:E; auto. exfalso.
+    destruct RI as [RI _]. destruct (RI eq_refl) as (f & Hin & Hf). rewrite (NF _ Hin) in Hf.
+    discriminate.
+  -
+    assert (failedl c = []).
+    { destruct (failedl c) as [|f l] eqn:E; auto. exfalso.
+      assert (In f files).
+      { eapply Permutation_in; [apply Permutation_sym; exact PF|].
+        apply in_or_app; right; apply in_or_app; left; simpl; auto. }
+      apply Forall_inv in HF. rewrite (NF _ H) in HF; discriminate. }
+    assert (skipped c = []).
+    { destruct (skipped c); auto. exfalso. apply HS; auto. discriminate. }
+    rewrite H, H0 in PF. simpl in PF. rewrite app_nil_r in PF. apply Permutation_sym; auto.
+Qed.
+
+(* the result does not depend on the number of workers nor on the schedule: any two
+   completed runs without fault copy the same multiset of files (in particular the run
+   with N workers under any schedule agrees with the sequential run N = 0) *)
+Corollary schedule_independent : forall files N1 sched1 N2 sched2,
+  nofault files ->
+  let c1 := run sched1 (init N1 files) in
+  let c2 := run sched2 (init N2 files) in
+  final c1 = true -> final c2 = true ->
+  Permutation (copied c1) (copied c2) /\ raised c1 = false /\ raised c2 = false.
+Proof.
+  intros files N1 sched1 N2 sched2 NF c1 c2 F1 F2.
+  destruct (copier_exit N1 files sched1 F1) as (_ & _ & _ & _ & _ & _ & _ & _ & _ & H1).
+  destruct (copier_exit N2 files sched2 F2) as (_ & _ & _ & _ & _ & _ & _ & _ & _ & H2).
+  destruct (H1 NF) as [R1 P1]. destruct (H2 NF) as [R2 P2].
+  repeat split; auto. eapply perm_trans; [exact P1|apply Permutation_sym; exact P2].
+Qed.
+
+(* ------------------------------------------------------------------ T3: no deadlock *)
+
+Lemma sumf_lt_exists : forall A (g : A -> nat) l,
+  (forall x, g x <= 1) -> sumf g l < length l ->
+  exists i w, nth_error l i = Some w /\ g w = 0.
+Proof.
+  intros A g l H; induction l as [|a l IH]; simpl; intros L; [lia|].
+  rewrite sumf_cons in L. destruct (g a) eqn:Ga.
+  - exists 0, a; auto.
+  - destruct IH as (i & w & E & G0); [specialize (H a); lia|].
+    exists (S i), w; auto.
+Qed.
+
+Lemma sumf_miss : forall A (g : A -> nat) l i w,
+  (forall x, g x <= 1) -> nth_error l i = Some w -> g w = 0 -> sumf g l < length l.
+Proof.
+  intros A g l; induction l as [|a l IH]; destruct i; simpl; intros w H E G0;
+    try discriminate; rewrite sumf_cons.
+  - inversion E; subst. pose proof (sumf_bound _ g l H). lia.
+  - specialize (IH _ _ H E G0). specialize (H a). lia.
+Qed.
+
+Lemma gotsent_le1 : forall w, gotsent w <= 1.
+Proof. destruct w; simpl; lia. Qed.
+
+Lemma worker_enabled : forall c i w,
+  nth_error (ws c) i = Some w -> gotsent w = 0 -> queue c <> [] -> w_enabled c i = true.
+Proof.
+  intros c i w E G Q. unfold w_enabled. rewrite E.
+  destruct w; simpl in *; auto; try discriminate. destruct (queue c); auto; congruence.
+Qed.
+
+Theorem copier_progress : forall N files sched,
+  let c := run sched (init N files) in
+  final c = false -> exists t, t <= N /\ enabled c t = true.
+Proof.
+  intros N files sched c F.
+  destruct (inv_reach N files sched) as (IA & _ & _). fold c in IA.
+  assert (EN : cN c = N) by (unfold c; rewrite cN_run; auto).
+  destruct IA as [Il I0 I1 Iw Iq Iu Is Iso Ia Ij Ir In Isk]. rewrite EN in *.
+  clearbody c. unfold final in F.
+  (* a worker that has not seen a sentinel can move as soon as the queue is non-empty *)
+  assert (FULL : length (queue c) <? N = false -> sumf gotsent (ws c) < N ->
+                 exists t, t <= N /\ enabled c t = true).
+  { intros R G. apply Nat.ltb_ge in R. rewrite <- Il in G.
+    destruct (sumf_lt_exists _ gotsent (ws c) gotsent_le1 G) as (i & w & E & G0).
+    exists (S i). split.
+    - assert (i < length (ws c)) by (apply nth_error_Some; congruence). lia.
+    - simpl. eapply worker_enabled; eauto.
+      intros Q. rewrite Q in R. simpl in R.
+      assert (i < length (ws c)) by (apply nth_error_Some; congruence). lia. }
+  destruct (prod c) as [[|f todo]|f todo|f todo|ts todo|[|k]|[|k]| |b] eqn:P;
+    try discriminate;
+    try (exists 0; split; [lia|simpl; unfold p_enabled; rewrite P; reflexivity]).
+  - (* PPut *)
+    destruct (length (queue c) <? N) eqn:R.
+    + exists 0; split; [lia|]. simpl. unfold p_enabled, room. rewrite P, EN; auto.
+    + apply FULL; auto. simpl in Is.
+      destruct N; [exfalso; apply (I0 eq_refl)|]. lia.
+  - (* PSentinels (S k) *)
+    destruct (length (queue c) <? N) eqn:R.
+    + exists 0; split; [lia|]. simpl. unfold p_enabled, room. rewrite P, EN; auto.
+    + apply FULL; auto. simpl in Is, Iw. lia.
+  - (* PJoins (S k) *)
+    simpl in Is, Iw, Ij.
+    assert (J : N - S k < length (ws c)) by lia.
+    destruct (nth_error (ws c) (N - S k)) as [w|] eqn:E;
+      [|apply nth_error_None in E; lia].
+    destruct (gotsent w) eqn:G.
+    + (* worker not stopped: it can move (the queue still holds its sentinel) *)
+      exists (S (N - S k)); split; [lia|]. simpl. eapply worker_enabled; eauto.
+      pose proof (sumf_miss _ gotsent (ws c) _ _ gotsent_le1 E G) as L.
+      intros Q. rewrite Q, sumf_nil in Is. lia.
+    + destruct w; simpl in G; try discriminate.
+      * exists (S (N - S k)); split; [lia|]. simpl. unfold w_enabled. rewrite E; auto.
+      * exists 0; split; [lia|]. simpl. unfold p_enabled. rewrite P, EN, E; auto.
+  - (* PQJoin *)
+    simpl in Is, Ij.
+    assert (W : forallb is_stopped (ws c) = true).
+    { apply all_stopped_forallb. intros i Hi. apply Ij. lia. }
+    exists 0; split; [lia|]. simpl. unfold p_enabled. rewrite P. apply Nat.eqb_eq.
+    rewrite Iu, (stopped_sum busy) by auto. simpl. rewrite Nat.mul_0_r, Nat.add_0_r.
+    destruct N as [|n]; [exfalso; apply (I0 eq_refl)|].
+    rewrite (stopped_sum gotsent) in Is, Ia by auto. simpl in Is, Ia.
+    rewrite Il, Nat.mul_1_r in Is, Ia. specialize (Ia ltac:(lia)).
+    apply all_sent_count in Ia. lia.
+Qed.
+
+(* A configuration in which nobody is enabled is final: the contrapositive reading used
+   by the harness ("no enabled thread and unfinished threads" = deadlock never happens) *)
+Corollary no_deadlock : forall N files sched,
+  let c := run sched (init N files) in
+  (forall t, t <= N -> enabled c t = false) -> final c = true.
+Proof.
+  intros N files sched c H. destruct (final c) eqn:F; auto.
+  destruct (copier_progress N files sched F) as (t & Ht & E). fold c in E.
+  rewrite (H t Ht) in E. discriminate.
 Qed.
